@@ -248,6 +248,19 @@ def bound_for(ctx, prog, adt, field, s, m):
             gfl = Flow(gc.body)
             pops = [c for c in call_sites(gc, lambda p, c2: p.endswith("::pop_first") or p.endswith("::pop_last"))]
             ok = pops and all(any(a[0] == "lt" and t and "max_objects_error" in show(a[1]) and "objects_error" in show(a[2]) for (a, t) in gfl.facts_at(c.bb)) for c in pops)
+            if not ok and pops:
+                # the same trim as a counted loop: `for _ in 0..len.saturating_sub(max) { pop_first() }` - every pop sits in an iteration of a range
+                # whose end is len(objects_error) - max_objects_error (saturating), and nothing else in the loop changes the set
+                gsl_ = Slicer(gc.body)
+                def counted(c):
+                    for (a, t) in gfl.facts_at(c.bb):
+                        if a[0] == "variant" and ((a[2] == "Some") == t) and a[2] in ("Some", "None") and any(z[0] == "call" and z[1].endswith("::next") for z in walk(a[1])):
+                            txt = origin_text(gsl_, a[1])
+                            if re.search(r"Range\{start: 0, end: <impl usize>::saturating_sub\(BTreeSet::len\(&self\.objects_error\), self\.config\.max_objects_error\)\}", txt):
+                                return True
+                    return False
+                others = [s_ for s_, ai_, mut_ in calls_on_field(prog, RC, "objects_error", funcs=[gc]) if method_name(s_) in ("insert", "extend", "append", "remove", "clear", "retain")]
+                ok = all(counted(c) for c in pops) and not others
             if ok:
                 return True, "insert followed by gc_object_error(), which pops while len > config.max_objects_error"
             return False, "gc_object_error no longer trims to config.max_objects_error"
